@@ -9,7 +9,7 @@ Theorems in Thm/C01.lean are re-checked on every run.
 import binascii
 from vf import core
 
-THM = ["YaraModel.Thm.C01"]
+THM = ["YaraModel.Thm.C01", "YaraModel.Thm.AcCert"]
 MANIFEST = dict(
     technique="Lean 4 proofs (atoms cover every variant for every window choice; verify = spec; sorted de-duplicated insertion; pipeline = spec for every complete candidate set) + spec-level correspondence of the real engine against the Lean specification",
     text="proof: Thm/C01.lean proves for ALL strings, ALL legal modifier sets / xor ranges, ALL atom-window choices (hence all quality heuristics) and ALL buffers that the "
@@ -326,7 +326,8 @@ def run(tier, replay=None):
             cid = "t%d" % i
         src = 'rule r { strings: $a = "%s" %s condition: #a >= 0 }' % (esc(s), mods_text(m))
         cases.append(dict(id=cid, s=hx(s), mods=mods_text(m), buf=hx(buf), private=m["private"], xor=m["xor"]))
-        hl.append("%s src=%s atoms=1 cands=1 buf=%s" % (cid, hx(src.encode()), hx(buf)))
+        small = (m["xor"] is None or m["xor"][1] - m["xor"][0] <= 3)
+        hl.append("%s src=%s atoms=1 cands=1 %sbuf=%s" % (cid, hx(src.encode()), "actab=1 " if small and (i < 0 or i % 6 == 0) else "", hx(buf)))
         dl.append("%s mods=%s s=%s buf=%s" % (cid, mods_tok(m), hx(s), hx(buf)))
     if replay:
         cases, hl, dl = [replay["case"]], [replay["harness_line"]], [replay["driver_line"]]
@@ -354,6 +355,22 @@ def run(tier, replay=None):
             dl2.append(d)
         dl = dl2
         model, _, _ = core.run_parallel([core.driver_path(), "text"], dl)
+        # Aho-Corasick certificate on the real tables (Thm/AcCert: holds => candidates exact for EVERY buffer)
+        acl = []
+        for c in cases:
+            il = himpl.get(c["id"], "")
+            t = {x.split("=", 1)[0]: x.split("=", 1)[1] for x in il.split()[2:] if "=" in x}
+            if "act" in t:
+                atoms = "-" if t["atoms"] == "-" else ",".join("%s:%s:%s" % (a.split(":")[0], a.split(":")[1], a.split(":")[3]) for a in t["atoms"].split(","))
+                acl.append("%s atoms=%s act=%s acm=%s acp=%s buf=%s cands=%s" % (c["id"], atoms, t["act"], t["acm"], t["acp"], c["buf"], t["cands"]))
+        acout, _, _ = core.run_parallel([core.driver_path(), "ac"], acl)
+        acbad = [l for l in acout if "cert=1" not in l or "scan=same" not in l]
+        certs_ac = {"tables_checked": len(acl), "cert_ok": len(acl) - len(acbad)}
+        for i, l in enumerate(acbad[:5]):
+            cid = l.split(" ", 1)[0]
+            chk.violation("ac_cert_%d.json" % i, {"kind": "Aho-Corasick certificate fails on the compiled tables (candidates are not provably the atom occurrences) or the table-driven scan model disagrees with the real candidate list",
+                                                  "driver": l, "case": [c for c in cases if c["id"] == cid][:1], "engine": "ac"}, no_input=True)
+            found = True
         mi = {l.split(" ", 1)[0]: l for l in impl}
         mm = {l.split(" ", 1)[0]: l for l in model}
         for c, h, d in zip(cases, hl, dl):
@@ -411,6 +428,8 @@ def run(tier, replay=None):
         else:
             chk.violation("unlisted_%s.json" % fid, {"kind": "deviation class %s is not a listed known finding" % fid, "hits": hits[:5]})
     chk.cov["certificates"] = certs
+    if lres.get("driver_ok"):
+        chk.cov["ac_certificate"] = certs_ac
     chk.cov["known_finding_hits"] = {k: len(v) for k, v in khits.items()}
     core.handle_broken_proof(chk, lres, found)
     return chk.finish("proof")
